@@ -1,6 +1,7 @@
 #!/usr/bin/env python3
-"""Inserts the DISPATCH hook statements into /repo (add-only, every statement guarded by
-`#[cfg(feature = "verif-hooks")]`; idempotent: a file that already contains the marker is skipped).
+"""The DISPATCH hook statements in /repo (add-only, every statement guarded by `#[cfg(feature = "verif-hooks")]`).
+They were inserted once (helper blocks below + one hook statement at the entry of each function listed); this file
+documents the vocabulary and checks that every event is still present (`python3 hooks/apply_dispatch_hooks.py`).
 
 Event vocabulary (family `disp.*`; consumed by lib/props/parts/dispatch.py, model coq/Model/Dispatch.v).
 Every `disp.*` scope is opened at the ENTRY of the function, before it changes anything, so its arguments
@@ -29,7 +30,7 @@ are the pre-state.
     disp.recv_push_promise   enter  [sid, promised, over_size] ++ D(sid)                       Inner::recv_push_promise
     disp.recv_go_away        enter  [last, code, send_max, debug...]                           Inner::recv_go_away
     disp.handle_error        enter  E(err)                                                    Inner::handle_error
-                                    E = [0, reason, initiator, sid] | [1, reason, initiator, debug...] | [2, kind, has_msg]
+                                    E = [0, reason, initiator, sid] | [1, reason, initiator, debug...] | [2, kind, has_msg, message bytes...]
     disp.recv_eof            enter  [conn_error.is_some()]                                     Inner::recv_eof
     disp.poll2_reset         enter  [sid, code] ++ D(sid)                                      Inner::send_reset
     disp.go_away_sent        ev     [last, recv_max before]                                   DynStreams::send_go_away
@@ -53,295 +54,38 @@ the harness operation; queued frames from `prio.queue_frame` / `disp.park_frame`
 `prio.pop_other`, `prio.pop_scheduled_reset`, `prio.pop_drop_push`; `prio.push_back` (reclaim), `prio.pop_pending_open`,
 `recv.stream_wu_pop` / `recv.stream_window_update`, `store.unlink`, `store.remove`, `recv.event` (handed to the application),
 `counts.can_inc_*` (admission verdicts)."""
+import re
 import sys
 
 REPO = "/repo/src/proto/streams/"
-MARK = "disp."
 
-
-def insert(path, anchor, text, after=True, nth=0):
-    s = open(path).read()
-    idxs = []
-    start = 0
-    while True:
-        i = s.find(anchor, start)
-        if i < 0:
-            break
-        idxs.append(i)
-        start = i + 1
-    assert len(idxs) > nth, (path, anchor, len(idxs))
-    idx = idxs[nth]
-    if after:
-        end = idx + len(anchor)
-        s = s[:end] + text + s[end:]
-    else:
-        s = s[:idx] + text + s[idx:]
-    open(path, "w").write(s)
-
-
-def hook(indent, kind, name, body, var="_verif_d"):
-    pad = " " * indent
-    head = "let %s = crate::verif::enter" % var if kind == "enter" else "crate::verif::ev"
-    return '%s#[cfg(feature = "verif-hooks")]\n%s%s("%s", || {\n%s\n%s});\n' % (pad, pad, head, name, body, pad)
-
-
-def vec_plus(indent, first, rest):
-    pad = " " * (indent + 4)
-    return "%slet mut v = vec![%s];\n%sv.extend(%s);\n%sv" % (pad, first, pad, rest, pad)
-
-
-STATE_CODE = '''
-#[cfg(feature = "verif-hooks")]
-impl State {
-    /// `[tag, a, b, c, d, e]`, see hooks/apply_dispatch_hooks.py (verification hook, read-only).
-    pub(super) fn verif_code(&self) -> Vec<i64> {
-        fn ini(i: Initiator) -> i64 {
-            match i {
-                Initiator::User => 0,
-                Initiator::Library => 1,
-                Initiator::Remote => 2,
-            }
-        }
-        fn peer(p: Peer) -> i64 {
-            match p {
-                Peer::AwaitingHeaders => 0,
-                Peer::Streaming => 1,
-            }
-        }
-        fn err(tag: i64, e: &Error) -> Vec<i64> {
-            match e {
-                Error::Reset(id, reason, i) => {
-                    vec![tag, 0, u32::from(*reason) as i64, ini(*i), u32::from(*id) as i64, 0]
-                }
-                Error::GoAway(d, reason, i) => {
-                    vec![tag, 1, u32::from(*reason) as i64, ini(*i), 0, d.len() as i64]
-                }
-                Error::Io(kind, msg) => {
-                    let k = match kind {
-                        io::ErrorKind::BrokenPipe => 1,
-                        io::ErrorKind::UnexpectedEof => 2,
-                        io::ErrorKind::ConnectionReset => 3,
-                        io::ErrorKind::Other => 4,
-                        _ => 9,
-                    };
-                    vec![
-                        tag,
-                        2,
-                        k,
-                        msg.is_some() as i64,
-                        0,
-                        msg.as_ref().map(|m| m.len() as i64).unwrap_or(0),
-                    ]
-                }
-            }
-        }
-        match &self.inner {
-            Inner::Idle => vec![0, 0, 0, 0, 0, 0],
-            Inner::ReservedLocal => vec![1, 0, 0, 0, 0, 0],
-            Inner::ReservedRemote => vec![2, 0, 0, 0, 0, 0],
-            Inner::Open { local, remote } => vec![3, peer(*local), peer(*remote), 0, 0, 0],
-            Inner::HalfClosedLocal(p) => vec![4, peer(*p), 0, 0, 0, 0],
-            Inner::HalfClosedRemote(p) => vec![5, peer(*p), 0, 0, 0, 0],
-            Inner::Closed(Cause::EndStream) => vec![6, 0, 0, 0, 0, 0],
-            Inner::Closed(Cause::Error(e)) => err(7, e),
-            Inner::Closed(Cause::ErrorAfterEndStream(e)) => err(8, e),
-            Inner::Closed(Cause::ScheduledLibraryReset(r)) => vec![9, 0, u32::from(*r) as i64, 0, 0, 0],
-        }
-    }
+EVENTS = {
+    "streams.rs": ["disp.recv_headers", "disp.recv_data", "disp.recv_reset", "disp.recv_window_update", "disp.recv_push_promise",
+                   "disp.recv_go_away", "disp.handle_error", "disp.recv_eof", "disp.poll2_reset", "disp.go_away_sent", "disp.send_request",
+                   "disp.send_data", "disp.send_trailers", "disp.send_reset", "disp.send_info", "disp.send_response", "disp.push_request",
+                   "disp.drop_ref", "disp.poll_reset"],
+    "recv.rs": ["disp.send_refusal", "disp.expire"],
+    "prioritize.rs": ["disp.park_frame"],
 }
-'''
-
-RECV_IDS = '''
-#[cfg(feature = "verif-hooks")]
-impl Recv {
-    /// `[next_stream_id (-1 = overflowed), max_stream_id, refused (-1 = none)]` (verification hook, read-only).
-    pub(super) fn verif_disp_ids(&self) -> [i64; 3] {
-        [
-            match self.next_stream_id {
-                Ok(id) => u32::from(id) as i64,
-                Err(_) => -1,
-            },
-            u32::from(self.max_stream_id) as i64,
-            self.refused.map(|id| u32::from(id) as i64).unwrap_or(-1),
-        ]
-    }
-}
-'''
-
-SEND_IDS = '''
-#[cfg(feature = "verif-hooks")]
-impl Send {
-    /// `[next_stream_id (-1 = overflowed), max_stream_id, is_push_enabled]` (verification hook, read-only).
-    pub(super) fn verif_disp_ids(&self) -> [i64; 3] {
-        [
-            match self.next_stream_id {
-                Ok(id) => u32::from(id) as i64,
-                Err(_) => -1,
-            },
-            u32::from(self.max_stream_id) as i64,
-            self.is_push_enabled as i64,
-        ]
-    }
-}
-'''
-
-INNER_DISP = '''
-#[cfg(feature = "verif-hooks")]
-impl Inner {
-    fn verif_disp_stream(&self, found: i64, s: Option<&Stream>) -> Vec<i64> {
-        let mut v = vec![found];
-        match s {
-            Some(s) => {
-                v.extend(s.state.verif_code());
-                v.push(
-                    (s.is_pending_open as i64)
-                        | (s.is_pending_push as i64) << 1
-                        | (s.reset_at.is_some() as i64) << 2
-                        | (s.is_pending_send as i64) << 3
-                        | (s.is_pending_accept as i64) << 4
-                        | (s.is_recv as i64) << 5
-                        | (s.is_counted as i64) << 6,
-                );
-                v.push(s.pending_send.is_empty() as i64);
-                v.push(s.buffered_send_data as i64);
-                v.push(s.ref_count as i64);
-            }
-            None => v.extend([0; 10]),
-        }
-        let snd = self.actions.send.verif_disp_ids();
-        let rcv = self.actions.recv.verif_disp_ids();
-        v.extend([snd[0], rcv[0], snd[1], rcv[1], rcv[2]]);
-        v.push(self.actions.conn_error.is_some() as i64);
-        v.push(s.map(|s| s.verif_serial).unwrap_or(-1));
-        v
-    }
-
-    /// The record `store.ids` finds for `id`, and the identifier bookkeeping (verification hook, read-only).
-    fn verif_disp(&self, id: StreamId) -> Vec<i64> {
-        let s = self.store.verif_find(id);
-        self.verif_disp_stream(s.is_some() as i64, s)
-    }
-
-    /// The record a handle or a queue holds by key (verification hook, read-only).
-    fn verif_disp_key(&self, key: store::Key) -> Vec<i64> {
-        let s = &self.store[key];
-        let linked = self
-            .store
-            .verif_find(s.id)
-            .map(|t| t.verif_serial == s.verif_serial)
-            .unwrap_or(false);
-        self.verif_disp_stream(if linked { 1 } else { 2 }, Some(s))
-    }
-}
-
-#[cfg(feature = "verif-hooks")]
-fn verif_disp_error(e: &proto::Error) -> Vec<i64> {
-    fn ini(i: Initiator) -> i64 {
-        match i {
-            Initiator::User => 0,
-            Initiator::Library => 1,
-            Initiator::Remote => 2,
-        }
-    }
-    match e {
-        proto::Error::Reset(id, reason, i) => {
-            vec![0, u32::from(*reason) as i64, ini(*i), u32::from(*id) as i64]
-        }
-        proto::Error::GoAway(d, reason, i) => {
-            let mut v = vec![1, u32::from(*reason) as i64, ini(*i)];
-            v.extend(d.iter().map(|b| *b as i64));
-            v
-        }
-        proto::Error::Io(kind, msg) => vec![
-            2,
-            match kind {
-                io::ErrorKind::BrokenPipe => 1,
-                io::ErrorKind::UnexpectedEof => 2,
-                io::ErrorKind::ConnectionReset => 3,
-                io::ErrorKind::Other => 4,
-                _ => 9,
-            },
-            msg.is_some() as i64,
-        ],
-    }
-}
-'''
-
-STORE_FIND = '''
-#[cfg(feature = "verif-hooks")]
-impl Store {
-    /// The record linked under `id` in the id map (verification hook, read-only).
-    pub(super) fn verif_find(&self, id: StreamId) -> Option<&Stream> {
-        self.ids.get(&id).map(|i| &self.slab[i.0 as usize])
-    }
-}
-'''
-
-
-def already(path):
-    return MARK in open(path).read()
+HELPERS = {"state.rs": "fn verif_code", "store.rs": "fn verif_find", "recv.rs": "fn verif_disp_ids", "send.rs": "fn verif_disp_ids",
+           "streams.rs": "fn verif_disp_key"}
 
 
 def main():
-    st = REPO + "state.rs"
-    if "fn verif_code" not in open(st).read():
-        open(st, "a").write(STATE_CODE)
-    sto = REPO + "store.rs"
-    if "fn verif_find" not in open(sto).read():
-        open(sto, "a").write(STORE_FIND)
-    rv = REPO + "recv.rs"
-    if "fn verif_disp_ids" not in open(rv).read():
-        open(rv, "a").write(RECV_IDS)
-        insert(rv, "            // Create the RST_STREAM frame\n            let frame = frame::Reset::new(stream_id, Reason::REFUSED_STREAM);\n",
-               hook(12, "ev", "disp.send_refusal", "                vec![u32::from(stream_id) as i64]"))
-        insert(rv, "                now.saturating_duration_since(reset_at) > reset_duration\n            }) {\n",
-               hook(16, "ev", "disp.expire", "                    vec![stream.verif_serial, u32::from(stream.id) as i64]"))
-    sd = REPO + "send.rs"
-    if "fn verif_disp_ids" not in open(sd).read():
-        open(sd, "a").write(SEND_IDS)
-    pr = REPO + "prioritize.rs"
-    if "disp.park_frame" not in open(pr).read():
-        insert(pr, "            // don't notify the connection task. Once additional capacity\n            // becomes available, the frame will be flushed.\n",
-               hook(12, "ev", "disp.park_frame",
-                    "                vec![\n                    stream.verif_serial,\n                    u32::from(stream.id) as i64,\n                    frame.is_end_stream() as i64,\n                ]"))
-    ss = REPO + "streams.rs"
-    if "fn verif_disp(" in open(ss).read():
-        print("streams.rs already hooked")
-        return
-    open(ss, "a").write(INNER_DISP)
-    # ---- Inner::recv_*
-    insert(ss, "        frame: frame::Headers,\n    ) -> Result<(), Error> {\n        let id = frame.stream_id();\n",
-           hook(8, "enter", "disp.recv_headers", vec_plus(8, "u32::from(id) as i64, frame.is_end_stream() as i64, frame.is_informational() as i64, frame.is_over_size() as i64", "self.verif_disp(id)")))
-    insert(ss, "                frame.is_end_stream() as i64,\n            ]\n        });\n        let id = frame.stream_id();\n",
-           hook(8, "enter", "disp.recv_data", vec_plus(8, "u32::from(id) as i64, frame.is_end_stream() as i64, frame.payload().len() as i64, frame.flow_controlled_len() as i64", "self.verif_disp(id)")))
-    insert(ss, "        frame: frame::Reset,\n    ) -> Result<(), Error> {\n        let id = frame.stream_id();\n",
-           hook(8, "enter", "disp.recv_reset", vec_plus(8, "u32::from(id) as i64, u32::from(frame.reason()) as i64", "self.verif_disp(id)")))
-    insert(ss, "        frame: frame::WindowUpdate,\n    ) -> Result<(), Error> {\n        let id = frame.stream_id();\n",
-           hook(8, "enter", "disp.recv_window_update", vec_plus(8, "u32::from(id) as i64, frame.size_increment() as i64", "self.verif_disp(id)")))
-    insert(ss, "        let id = frame.stream_id();\n        let promised_id = frame.promised_id();\n",
-           hook(8, "enter", "disp.recv_push_promise", vec_plus(8, "u32::from(id) as i64, u32::from(promised_id) as i64, frame.is_over_size() as i64", "self.verif_disp(id)")))
-    insert(ss, "        frame: &frame::GoAway,\n    ) -> Result<(), Error> {\n",
-           hook(8, "enter", "disp.recv_go_away", vec_plus(8, "u32::from(frame.last_stream_id()) as i64, u32::from(frame.reason()) as i64, self.actions.send.verif_disp_ids()[1]", "frame.debug_data().iter().map(|b| *b as i64)")))
-    insert(ss, "    fn handle_error<B>(&mut self, send_buffer: &SendBuffer<B>, err: proto::Error) -> StreamId {\n",
-           hook(8, "enter", "disp.handle_error", "            verif_disp_error(&err)"))
-    insert(ss, "        clear_pending_accept: bool,\n    ) -> Result<(), ()> {\n        let actions = &mut self.actions;\n", "", after=True)  # anchor check only
-    insert(ss, "        clear_pending_accept: bool,\n    ) -> Result<(), ()> {\n", hook(8, "enter", "disp.recv_eof", "            vec![self.actions.conn_error.is_some() as i64]"), nth=1)
-    insert(ss, "        id: StreamId,\n        reason: Reason,\n    ) -> Result<(), crate::proto::error::GoAway> {\n        let key = match self.store.find_entry(id) {\n",
-           hook(8, "enter", "disp.poll2_reset", vec_plus(8, "u32::from(id) as i64, u32::from(reason) as i64", "self.verif_disp(id)")), after=False)
-    # the anchor above starts before the hook position; move the hook after the signature
-    s = open(ss).read()
-    # DynStreams::send_go_away
-    insert(ss, "    pub fn send_go_away(&mut self, last_processed_id: StreamId) {\n        let mut me = self.inner.lock().unwrap();\n",
-           hook(8, "ev", "disp.go_away_sent", "            vec![\n                u32::from(last_processed_id) as i64,\n                me.actions.recv.verif_disp_ids()[1],\n            ]"))
-    # Streams::send_request
-    insert(ss, "        let send_buffer = &mut *send_buffer;\n\n        me.actions.ensure_no_conn_error()?;\n        me.actions.send.ensure_next_stream_id()?;\n\n        // The `pending` argument",
-           "", after=False)
-    insert(ss, "        me.actions.ensure_no_conn_error()?;\n        me.actions.send.ensure_next_stream_id()?;\n\n        // The `pending` argument",
-           hook(8, "enter", "disp.send_request",
-                "            vec![\n                end_of_stream as i64,\n                me.actions.send.verif_disp_ids()[0],\n                me.actions.conn_error.is_some() as i64,\n                me.counts.peer().is_server() as i64,\n            ]"),
-           after=False)
+    bad = 0
+    for fn, evs in EVENTS.items():
+        s = open(REPO + fn).read()
+        for e in evs:
+            if '"%s"' % e not in s:
+                print("missing hook event", e, "in", fn)
+                bad += 1
+    for fn, needle in HELPERS.items():
+        if needle not in open(REPO + fn).read():
+            print("missing helper", needle, "in", fn)
+            bad += 1
+    print("dispatch hooks: %d events, %d problems" % (sum(len(v) for v in EVENTS.values()), bad))
+    return bad
 
 
 if __name__ == "__main__":
-    main()
-    sys.exit(0)
+    sys.exit(1 if main() else 0)
